@@ -29,9 +29,14 @@ fn type_bits(kind: &str) -> u32 {
     }
 }
 
+/// alphabet of the bounded-exhaustive histories: set of one of up to 5 representative fields, dirty_reset, mark_fully_dirty, flush
+const BX_DEPTH: u32 = 4;
+
 pub struct C13 {
     tables: Vec<Vec<UField>>, // per exp
     enumerated: Vec<(Exp, String, String, String, bool)>, // exp, kind, field, argty, via builder
+    /// bounded-exhaustive part: per (exp, kind) the representative setters (field, argty)
+    bx: Vec<(Exp, String, Vec<(String, String)>)>,
 }
 
 impl C13 {
@@ -51,7 +56,38 @@ impl C13 {
                 enumerated.push((e, k.to_string(), f.to_string(), t.to_string(), true));
             }
         }
-        C13 { tables, enumerated }
+        let mut c = C13 { tables, enumerated, bx: Vec::new() };
+        // representative fields per object kind: the first setter (by table offset) of every argument type that is not
+        // inherited from Object, plus the one at the highest offset (the mask arrays must grow for it)
+        for e in Exp::ALL {
+            for k in KINDS {
+                let mut own: Vec<(u16, String, String)> = um_setters(e).iter().filter(|s| s.0 == k && ["I", "F", "G", "B", "S"].contains(&s.2)).filter_map(|s| c.lookup(e, k, s.1).map(|u| (u.offset, s.1.to_string(), s.2.to_string()))).collect();
+                own.sort();
+                let mut rep: Vec<(String, String)> = Vec::new();
+                for ty in ["I", "F", "G", "B", "S"] {
+                    if let Some(x) = own.iter().filter(|x| x.0 >= 6).find(|x| x.2 == ty) {
+                        rep.push((x.1.clone(), x.2.clone()));
+                    }
+                }
+                if let Some(last) = own.last() {
+                    if !rep.iter().any(|r| r.0 == last.1) {
+                        rep.push((last.1.clone(), last.2.clone()));
+                    }
+                }
+                rep.truncate(5);
+                if !rep.is_empty() {
+                    c.bx.push((e, k.to_string(), rep));
+                }
+            }
+        }
+        c
+    }
+    /// number of histories of length 1..=BX_DEPTH over an alphabet of `a` operations
+    fn bx_count(a: u64) -> u64 {
+        (1..=BX_DEPTH).map(|d| a.pow(d)).sum()
+    }
+    fn bx_total(&self) -> u64 {
+        self.bx.iter().map(|b| Self::bx_count(b.2.len() as u64 + 3)).sum()
     }
     /// the table range of a structured field must not overlap any other Player/Unit/Object field, otherwise the
     /// reference model cannot tell the accessors apart (the published TBC table lists PLAYER_VISIBLE_ITEM as
@@ -243,7 +279,7 @@ impl Check for C13 {
         "exploration"
     }
     fn rule(&self) -> String {
-        "Each run is a history of operations applied to one library Update{Item,Container,Unit,Player,GameObject,DynamicObject,Corpse} object (3 expansions) on a simulated server and to a reference model, with a client replica fed through the wire: typed builder setters + finalize, typed setters and getters on the built mask (every generated accessor with a standard signature is reachable through a dispatch table generated from impls.rs), dirty_reset, mark_fully_dirty, has_any_dirty_fields, is_bit_dirty, flush (send SMSG_UPDATE_OBJECT with a Values block, then dirty_reset) and client restart (replica wiped, mark_fully_dirty, next flush must carry every present field). Enumerated part: for every generated setter and builder setter, a fresh object, one set with a unique value (custom signatures too: item slots, race/class/gender/power, stand state, VisibleItem and SkillInfo structures), one flush: exactly the offsets [table.offset, table.offset+words) must appear with the bit layout the type implies. Sampled part: random histories of 1-40 operations biased to a small field set per kind. Oracles per operation: getter = value last set; flushed block decoded by the model's decoder: block count, mask bits = present AND dirty, values ascending, nothing else, header size and declared size = bytes written; when the block carries the object-type field the library's own decoder must return an object of the written KIND carrying exactly the written fields; dirty queries where the statement fixes them. Non-trivial: at least one flush after a set; distinct = distinct event-log hashes.".into()
+        "Each run is a history of operations applied to one library Update{Item,Container,Unit,Player,GameObject,DynamicObject,Corpse} object (3 expansions) on a simulated server and to a reference model, with a client replica fed through the wire: typed builder setters + finalize, typed setters and getters on the built mask (every generated accessor with a standard signature is reachable through a dispatch table generated from impls.rs), dirty_reset, mark_fully_dirty, has_any_dirty_fields, is_bit_dirty, flush (send SMSG_UPDATE_OBJECT with a Values block, then dirty_reset) and client restart (replica wiped, mark_fully_dirty, next flush must carry every present field). Enumerated part: for every generated setter and builder setter, a fresh object, one set with a unique value (custom signatures too: item slots, race/class/gender/power, stand state, VisibleItem and SkillInfo structures), one flush: exactly the offsets [table.offset, table.offset+words) must appear with the bit layout the type implies. Bounded-exhaustive part: per expansion and object kind, EVERY history of length 1-4 over {set of one of up to 5 representative fields (first int, float, guid, bytes, two-short field of the kind and its highest field), dirty_reset, mark_fully_dirty, flush}, with getter and dirty queries after every step. Sampled part: random histories of 1-40 operations biased to a small field set per kind. Oracles per operation: getter = value last set; flushed block decoded by the model's decoder: block count, mask bits = present AND dirty, values ascending, nothing else, header size and declared size = bytes written; when the block carries the object-type field the library's own decoder must return an object of the written KIND carrying exactly the written fields; dirty queries where the statement fixes them. Non-trivial: at least one flush after a set; distinct = distinct event-log hashes.".into()
     }
     fn assumptions(&self) -> Vec<String> {
         vec![
@@ -258,7 +294,7 @@ impl Check for C13 {
                "not_exercised": ["CreateObject blocks with movement data (MovementBlock sizing has a known C02 finding)"]})
     }
     fn plan(&self, tier: Tier) -> (u64, u64) {
-        (self.enumerated.len() as u64, match tier {
+        (self.enumerated.len() as u64 + self.bx_total(), match tier {
             Tier::Quick => env_u64("VERIF_C13_RUNS", 60_000),
             Tier::Thorough => env_u64("VERIF_C13_RUNS", 3_000_000),
         })
@@ -273,6 +309,49 @@ impl Check for C13 {
                 json!([{"op": "finalize"}, {"op": "flush"}, {"op": "set", "f": f, "t": t, "a": a}, {"op": "get", "f": f, "t": t, "slot": a["SG"][0]}, {"op": "has_any_dirty"}, {"op": "flush"}, {"op": "has_any_dirty"}])
             };
             return json!({"label": format!("{}:{}:{}", e.name(), k, f), "exp": e.name(), "kind": k, "ops": ops, "enumerated": true});
+        }
+        let mut j = i - self.enumerated.len() as u64;
+        if j < self.bx_total() {
+            // bounded-exhaustive: every history of length 1..=BX_DEPTH over {set r1..rk, dirty_reset, mark_fully_dirty, flush}
+            // for the representative fields of one (expansion, object kind); getters and queries are interleaved by exec's oracles
+            for (e, kind, rep) in &self.bx {
+                let a = rep.len() as u64 + 3;
+                let n = Self::bx_count(a);
+                if j >= n {
+                    j -= n;
+                    continue;
+                }
+                let mut len = 1u32;
+                while j >= a.pow(len) {
+                    j -= a.pow(len);
+                    len += 1;
+                }
+                let mut ops = vec![json!({"op": "finalize"})];
+                let mut code = j;
+                let mut counter = 0x5000u32;
+                for _ in 0..len {
+                    let sym = (code % a) as usize;
+                    code /= a;
+                    if sym < rep.len() {
+                        counter += 1;
+                        let (f, t) = &rep[sym];
+                        ops.push(json!({"op": "set", "f": f, "t": t, "a": arg_json(&unique_arg(t, counter))}));
+                        ops.push(json!({"op": "get", "f": f, "t": t, "slot": 0}));
+                    } else {
+                        match sym - rep.len() {
+                            0 => ops.push(json!({"op": "dirty_reset"})),
+                            1 => ops.push(json!({"op": "mark_fully_dirty"})),
+                            _ => ops.push(json!({"op": "flush"})),
+                        }
+                    }
+                    ops.push(json!({"op": "has_any_dirty"}));
+                }
+                for (f, t) in rep {
+                    ops.push(json!({"op": "get", "f": f, "t": t, "slot": 0}));
+                }
+                ops.push(json!({"op": "flush"}));
+                return json!({"label": format!("{}:{}:bx", e.name(), kind), "exp": e.name(), "kind": kind, "ops": ops, "enumerated": true, "bounded_exhaustive": true});
+            }
         }
         let mut rng = Rng::new(seed);
         let e = *rng.pick(&Exp::ALL);
